@@ -636,8 +636,9 @@ BOUND_MODELS = WELL_POSED + ("Quadratic", "GAB", "Virial", "Virial")
 
 def strat_bounds():
     return st.builds(
-        lambda model, guess, kinds, fs, us, data: {"model": model, "guess": guess, "kinds": kinds, "f": fs, "u": us,
-                                                   "data": data},
+        lambda path, model, guess, kinds, fs, us, data: {"model": model, "guess": guess, "kinds": kinds, "f": fs, "u": us,
+                                                         "data": data, "path": path},
+        st.sampled_from(["arrays", "arrays", "frame", "point", "model_iso"]),
         st.sampled_from(BOUND_MODELS), st.sampled_from(["default", "user"]),
         st.lists(st.sampled_from(["around", "above", "below"]), min_size=4, max_size=4),
         st.lists(st.floats(1.2, 5.0), min_size=4, max_size=4), st.lists(st.floats(0.05, 0.95), min_size=4, max_size=4),
@@ -693,7 +694,7 @@ def check_bounds(desc, ctx):
         kw["param_guess"] = {n: guess[n] for n in reversed(order)}
     ctx.label("key_order_as_declared" if order == names else "key_order_other")
     try:
-        mi = _fit("arrays", p, l, model, meta, **kw)
+        mi = _fit(desc.get("path", "arrays"), p, l, model, meta, **kw)
     except CalculationError:
         ctx.label("refused:" + model)
         raise Inconclusive()
